@@ -171,6 +171,9 @@ def run(ck: Check):
     for data in REPO_CASES:
         one("jsstr", data)
         one("attrs", data)
+    # the same object loading a second file (a library user, a second pass) splits it like a fresh object
+    from props.c06 import reload_same_object
+    reload_same_object(ck)
     model = run_model(cases, shards=16)
     from coqlit import xcheck
     xcheck(ck, cases, model)
